@@ -44,6 +44,11 @@ THEOREMS = [
     "C05_replace_keeps_cache_witness",
     "C05_fetch_tree_transparent",
     "C05_fetch_shallow_witness",
+    "C05_key_priority_witness",
+    "C05_cmp_transparent",
+    "C05_cmp_current_witness",
+    "C05_cmp_broadcast_witness",
+    "C05_cmp_typed_sound",
 ]
 RULE = (
     "twin histories: (node) every history up to length L over {set v, run, submit, complete, clearFailed, cancel, "
@@ -86,6 +91,27 @@ OPS = ["set0", "set1", "set2", "set3", "set4", "set5", "set6", "run", "submit", 
        "drop", "resetrunning"]
 
 
+# values for the "same input?" cases: scalars that are `==` across types, arrays whose `==` is element-wise (ambiguous
+# truth value, broadcasting), containers — made afresh at every use (never the same object twice)
+def _mkval(tok):
+    import numpy as np
+
+    return {
+        "i1": lambda: 1, "f1": lambda: 1.0, "b1": lambda: True, "c1": lambda: complex(1, 0), "s1": lambda: "1",
+        "i0": lambda: 0, "f0": lambda: 0.0, "fm0": lambda: -0.0, "b0": lambda: False,
+        "n64": lambda: np.float64(1.0), "ni": lambda: np.int64(1),
+        "a0": lambda: np.array(1.0), "a1": lambda: np.ones(1), "a11": lambda: np.ones((1, 1)),
+        "a3": lambda: np.ones(3), "a23": lambda: np.ones((2, 3)), "a31": lambda: np.ones((3, 1)), "a13": lambda: np.ones((1, 3)),
+        "ai3": lambda: np.ones(3, dtype=int), "z3": lambda: np.zeros(3), "a3x": lambda: np.array([1.0, 1.0, 2.0]),
+        "a2": lambda: np.ones(2), "l3": lambda: [1.0, 1.0, 1.0], "li3": lambda: [1, 1, 1], "t3": lambda: (1, 1, 1),
+        "l1": lambda: [1], "lf1": lambda: [1.0],
+    }[tok]()
+
+
+VAL_TOKENS = ["i1", "f1", "b1", "c1", "s1", "i0", "f0", "b0", "n64", "ni", "a0", "a1", "a11", "a3", "a23", "a31",
+              "a13", "ai3", "z3", "a3x", "a2", "l3", "li3", "t3", "l1", "lf1"]
+
+
 # ----------------------------------------------------------------------------- generators
 
 
@@ -108,8 +134,12 @@ def _gen_tree_ops(rng, n):
         k = rng.randrange(1 << 20)
         if r < 0.30:
             e = ["setin", k, rng.randrange(1, 6)]
-        elif r < 0.45:
+        elif r < 0.40:
             e = ["rewire", k]
+        elif r < 0.43:
+            e = ["connect2", k]
+        elif r < 0.45:
+            e = ["reprio", k]
         elif r < 0.52:
             e = ["replace", k, rng.randrange(10, 20)]
         elif r < 0.57:
@@ -197,6 +227,25 @@ def gen_cases(rng, tier):
                      "add": ["add", sel, 25], "remove": ["remove", sel],
                      "exec": ["exec", sel, ("ctl", "ctl-pickle", "ctl-cloudpickle")[sel % 3]]}[kind]
                 yield {"kind": "tree", "shape": sh, "ops": [["run"], ["run"], e, ["run"], ["run"]], "bydepth": True}
+    # "the same input?": sequences of values that are equal / element-wise equal / broadcast-equal but not the same value
+    import itertools as _it
+
+    pairs = list(_it.permutations(VAL_TOKENS, 2))
+    if tier == "quick":
+        pairs = rng.sample(pairs, 120)
+    for where in ("node", "wf", "macro", "wfmacro"):
+        for x, y in (pairs if where == "node" or tier != "quick" else pairs[:40]):
+            yield {"kind": "vals", "where": where, "seq": [x, y, x, x]}
+    for _ in range(60 if tier == "quick" else 1500):
+        yield {"kind": "vals", "where": rng.choice(["node", "node", "wf", "macro", "wfmacro"]),
+               "seq": [rng.choice(VAL_TOKENS) for _ in range(rng.randint(3, 8))]}
+    # an input with several connections: a second connection (it takes priority), then only the priority order changes
+    for sh in shapes:
+        for sel in range(6 if tier == "quick" else 20):
+            R = ["run"]
+            yield {"kind": "tree", "shape": sh, "ops": [R, ["connect2", sel], R, R, ["reprio", sel], R, R, ["reprio", sel], R]}
+            yield {"kind": "tree", "shape": sh, "ops": [R, ["connect2", sel], ["connect2", sel + 1], R, ["reprio", sel], R,
+                                                        ["reprio", sel + 3], R]}
     # values held by channels: hand assignment to connected / free inputs and disconnections, at every depth
     for sh in shapes:
         for sel in range(8 if tier == "quick" else 24):
@@ -251,6 +300,11 @@ def corpus():
     yield {"kind": "switch", "factory": "dataclass_node", "n": 2}
     # a value assigned to a CONNECTED input survives a cache hit (no fetch) and takes effect after a disconnect (KF-C05-7)
     yield {"kind": "wf", "ops": [["run"], ["setinner", 1, "a", "x"], ["run"], ["remove", 0], ["run"]], "macro": False}
+    # `1` then `1.0`: equal for `==`, not for a function that looks at the type (KF-C05-9); arrays that broadcast equal
+    yield {"kind": "vals", "where": "node", "seq": ["i1", "f1"]}
+    yield {"kind": "vals", "where": "wf", "seq": ["a1", "a11"]}
+    yield {"kind": "vals", "where": "node", "seq": ["a3", "a23", "f1", "a3"]}
+    yield {"kind": "vals", "where": "wfmacro", "seq": ["a3", "a23", "a31"]}
     sh = _tree_shapes()
     # a grandchild's free input changes (seeded change C05-2), at depth 2, 3 and 4
     yield {"kind": "tree", "shape": sh[0], "ops": [["run"], ["setat", ["m0"], "n1", "c", 4], ["run"]]}
@@ -567,8 +621,9 @@ def _lid(label):
 
 
 def _cls_id(name):
-    """F<k> -> k; the standard UserInput node (identity, made by a macro for an input that fans out) -> 99"""
-    return 99 if name == "UserInput" else int(name[1:])
+    """F<k> (the harness's own term nodes) -> k; anything else — the library's identity node that a macro makes for an
+    input that fans out, whatever it is called — -> 99"""
+    return int(name[1:]) if name[:1] == "F" and name[1:].isdigit() else 99
 
 
 def _val(code):
@@ -635,6 +690,8 @@ def _link_index(parent, chan):
 
 def _src(parent, chan):
     if chan.connected:
+        if len(chan.connections) > 1:
+            return "m" + ".".join(str(_lid(o.owner.label)) for o in chan.connections)
         return f"c{_lid(chan.connections[0].owner.label)}"
     i = _link_index(parent, chan) if parent is not None else None
     if i is not None:
@@ -671,7 +728,9 @@ def _render_key(comp, key, is_root):
     signal connections, starting nodes, composite class names — is left out)"""
     try:
         labels, dconns, _sig, _start, per_child = key
-        conn = {(c[0][0], c[0][1]): c[1][0] for c in dconns}
+        conn = {}
+        for c in dconns:  # in the key's own order = priority order of each channel's connections
+            conn.setdefault((c[0][0], c[0][1]), []).append(c[1][0])
         out = []
         for entry in per_child:
             label, free, nested = entry[0], entry[-2], entry[-1]
@@ -681,7 +740,8 @@ def _render_key(comp, key, is_root):
             ins = []
             for ch in child.inputs:
                 if (label, ch.label) in conn:
-                    ins.append(f"c{_lid(conn[(label, ch.label)])}")
+                    ups = conn[(label, ch.label)]
+                    ins.append(f"c{_lid(ups[0])}" if len(ups) == 1 else "m" + ".".join(str(_lid(u)) for u in ups))
                 elif ch.label in free:
                     i = None if is_root else _link_index(comp, ch)
                     c = _code(free[ch.label])
@@ -689,15 +749,20 @@ def _render_key(comp, key, is_root):
                 else:
                     ins.append("?")
             if nested is not None:
-                out.append(f"{_lid(label)}:-:C{_ret_of(child)}:({','.join(ins)})[{_render_key(child, nested, False)}]")
+                sub = _render_key(child, nested, False)
+                if sub is None:
+                    return None
+                out.append(f"{_lid(label)}:-:C{_ret_of(child)}:({','.join(ins)})[{sub}]")
             else:
                 k = "-" if cls is None or _is_comp(child) else _cls_id(cls.rsplit(".", 1)[-1])
                 out.append(f"{_lid(label)}:{k}:L:({','.join(ins)})")
         if tuple(labels) != tuple(e[0] for e in per_child):
             return "labels-differ " + "|".join(out)
         return "|".join(out)
-    except Exception as e:  # noqa: BLE001
-        return f"unrenderable:{type(e).__name__}"
+    except Exception:  # noqa: BLE001
+        # the key is a private structure: a tree that lays it out differently is not compared on it (hit / miss, outputs
+        # and executed nodes still are)
+        return None
 
 
 def _comps(host, path=()):
@@ -763,6 +828,23 @@ def _resolve(host, op, spares=None):
                         if not is_root and _rank(comp, s.label) >= _rank(comp, c.label):
                             continue  # a macro keeps the execution order it was created with
                         cands.append(["rewire", path, c.label, ch.label, s.label])
+            elif kind in ("connect2", "reprio"):
+                if not is_root and c.label not in getattr(comp, "_c05_order", []):
+                    continue
+                for ch in c.inputs:
+                    if not ch.connected or (not is_root and _link_index(comp, ch) is not None):
+                        continue
+                    have = [o.owner.label for o in ch.connections]
+                    if kind == "reprio":
+                        for u in have[1:]:  # a lower-priority upstream: disconnect + connect makes it the first
+                            cands.append(["reprio", path, c.label, ch.label, u])
+                        continue
+                    for s in comp:
+                        if s is c or s.label in have or c.label in _upstream(s) or not hasattr(s.outputs, "o"):
+                            continue
+                        if not is_root and _rank(comp, s.label) >= _rank(comp, c.label):
+                            continue
+                        cands.append(["connect2", path, c.label, ch.label, s.label])
             elif kind == "exec":
                 if hasattr(c.outputs, "o"):
                     cands.append(["exec", path, c.label, op[2]])
@@ -808,6 +890,14 @@ def _apply_tree(host, op, use_cache, sched=None, spares=None):
             return "unit", host
         if op[0] == "setin":
             _at(host, op[1]).children[op[2]].inputs[op[3]].value = _val(op[4])
+            return "unit", host
+        if op[0] in ("connect2", "reprio"):
+            comp = _at(host, op[1])
+            ch = comp.children[op[2]].inputs[op[3]]
+            up = comp.children[op[4]].outputs.o
+            if op[0] == "reprio":
+                ch.disconnect(up)
+            ch.connect(up)  # the newest connection comes first
             return "unit", host
         if op[0] == "rewire":
             comp = _at(host, op[1])
@@ -963,8 +1053,12 @@ def _run_tree_case(case):
                 a.set_run_signals_to_dag_execution()  # what Workflow._before_run does first
                 hit = bool(a.cache_hit)
                 key = _render_key(a, a._internal_cache_key(), True)
-            except Exception as e:  # noqa: BLE001
-                hit, key = False, f"exc:{type(e).__name__}"
+            except Exception:  # noqa: BLE001
+                key = None
+            try:
+                hit = bool(a.cache_hit)
+            except Exception:  # noqa: BLE001
+                hit = False
             n0 = len(nodes.CALL_LOG)
             ra = _run_tree(a, sa)
             calls = len(nodes.CALL_LOG) - n0
@@ -982,17 +1076,18 @@ def _run_tree_case(case):
                 obs.append("exc")
             elif ra.startswith("ret:") and rb.startswith("ret:"):
                 obs.append(f"hit={str(hit).lower()} c={_outs(a)} u={_outs(b)}")
-                obs.append(f"key {key}")
+                obs.append(f"key {key}" if key is not None else "key ?")
                 # the whole tree of caches: which function nodes executed in the cached graph (the rest hit a cache)
                 obs.append(f"F hit={str(hit).lower()} c={_outs(a)} calls={','.join(executed)}")
             else:
                 obs.append("exc")
             continue
-        idx = None
-        if cop[0] in ("setin", "rewire"):
+        idx, before_conns = None, []
+        if cop[0] in ("setin", "rewire", "connect2", "reprio"):
             child = _at(a, cop[1]).children.get(cop[2])
             if child is not None:
                 idx = [ch.label for ch in child.inputs].index(cop[3])
+                before_conns = [o.owner.label for o in child.inputs[cop[3]].connections]
         before, changed = [], False
         if cop[0] == "pickle":
             _describe(a, [], True, before)
@@ -1016,7 +1111,11 @@ def _run_tree_case(case):
         if ra != "unit" or rb != "unit" or changed:
             obs.append("exc")  # the comparison with the model stops here
             continue
-        if cop[0] == "setin":
+        if cop[0] in ("connect2", "reprio"):
+            # predicted, not read back: the upstream named by the edit moves to the front of what the channel had
+            rest = [u for u in before_conns if u != cop[4]]
+            mlines.append(f"tsetin {_path_str(cop[1])} {_lid(cop[2])} {idx} m" + ".".join(str(_lid(u)) for u in [cop[4]] + rest))
+        elif cop[0] == "setin":
             mlines.append(f"tsetin {_path_str(cop[1])} {_lid(cop[2])} {idx} v{cop[4]}")
         elif cop[0] == "rewire":
             mlines.append(f"tsetin {_path_str(cop[1])} {_lid(cop[2])} {idx} c{_lid(cop[4])}")
@@ -1178,7 +1277,107 @@ def _run_fetch_case(case):
             "stats": {"fetch_cases": 1, "fetch_hits": hits, **hist}}
 
 
+def _py_same(v, c):
+    """what Python / numpy make of `v == c` — nothing of the library in it: (truthy without ambiguity, … and the two have
+    the same type, shape and dtype)"""
+    import numpy as np
+
+    try:
+        eq = bool(v == c)
+    except Exception:  # noqa: BLE001 - ambiguous truth value of an element-wise comparison
+        eq = False
+    typed = eq and type(v) is type(c) and getattr(v, "shape", None) == getattr(c, "shape", None) \
+        and getattr(v, "dtype", None) == getattr(c, "dtype", None)
+    if typed and isinstance(v, list | tuple):
+        typed = len(v) == len(c) and all(_py_same(a, b)[1] for a, b in zip(v, c))
+    return eq, bool(typed)
+
+
+_VAL_VARIANT = None
+
+
+def _probe_val_variant():
+    """does the tree's hit test tell `1` from `1.0`? ("VC" = plain `==`, "VP" = type-aware)"""
+    global _VAL_VARIANT
+    if _VAL_VARIANT is None:
+        from . import nodes_c05 as nc
+
+        n = nc.Desc(label="p")
+        n.run(x=1)
+        k = len(nc.DESC_CALLS)
+        n.run(x=1.0)
+        _VAL_VARIANT = "VC" if len(nc.DESC_CALLS) == k else "VP"
+    return _VAL_VARIANT
+
+
+def _run_vals_case(case):
+    from pyiron_workflow import Workflow
+
+    from . import nodes_c05 as nc
+
+    variant = _probe_val_variant()
+
+    def build(use_cache):
+        where = case["where"]
+        if where == "node":
+            h = nc.Desc(label="n")
+            setter = lambda v: setattr(h.inputs.x, "value", v)  # noqa: E731
+            get = lambda r: r  # noqa: E731
+        elif where == "macro":
+            h = nc.MDesc(label="m")
+            setter = lambda v: setattr(h.inputs.x, "value", v)  # noqa: E731
+            get = lambda r: r["y"]  # noqa: E731
+        else:
+            h = Workflow("w", autoload=None)
+            h.recovery = None
+            h.c = nc.Desc() if where == "wf" else nc.MDesc()
+            setter = lambda v: setattr(h.c.inputs.x, "value", v)  # noqa: E731
+            get = lambda r: r["c__y"]  # noqa: E731
+        if not use_cache:
+            _cache_off(h) if _is_comp(h) else setattr(h, "use_cache", False)
+        return h, setter, get
+
+    (a, seta, geta), (b, setb, getb) = build(True), build(False)
+    a.recovery = b.recovery = None
+    rows, obs, hits = [], [], 0
+    for tok in case["seq"]:
+        out = []
+        for h, st, gt in ((a, seta, geta), (b, setb, getb)):
+            k = len(nc.DESC_CALLS)
+            try:
+                st(_mkval(tok))
+                r = "ret:" + str(gt(h.run()))
+            except Exception as e:  # noqa: BLE001
+                r = f"exc:{type(e).__name__}"
+            out.append((r, len(nc.DESC_CALLS) - k))
+        (ra, ca), (rb, _) = out
+        hits += int(ca == 0)
+        rows.append({"op": tok, "c": ra, "u": rb, "vc": "", "vu": "", "called": ca})
+        obs.append(f"hit={str(ca == 0).lower()} c={ra[4:]} u={rb[4:]}")
+    return {"obs": obs, "rows": rows, "hits": hits, "special": 0, "variant": variant,
+            "stats": {"vals_cases": 1, "vals_" + case["where"]: 1, "vals_hits": hits, "vals_variant_" + variant: 1}}
+
+
+def _vals_model_input(case):
+    from . import nodes_c05 as nc
+
+    toks = sorted(set(case["seq"]))
+    ids = {t: i for i, t in enumerate(toks)}
+    descs = sorted({nc.describe(_mkval(t)) for t in toks})
+    lines = []
+    for t in toks:
+        lines.append(f"vdesc {ids[t]} {descs.index(nc.describe(_mkval(t)))}")
+        for u in toks:
+            eq, typed = _py_same(_mkval(t), _mkval(u))
+            lines.append(f"vsame {ids[t]} {ids[u]} {int(eq)} {int(typed)}")
+    for t in case["seq"]:
+        lines += [f"vset {ids[t]}", "vrun"]
+    return lines, descs
+
+
 def run_impl(case):
+    if case["kind"] == "vals":
+        return _run_vals_case(case)
     if case["kind"] == "fetch":
         return _run_fetch_case(case)
     if case["kind"] == "switch":
@@ -1198,6 +1397,8 @@ def nontrivial(case, impl):
 
 
 def model_input(case, impl):
+    if case["kind"] == "vals":
+        return _vals_model_input(case)[0] if case["where"] == "node" else []
     if case["kind"] == "switch":
         return []
     if case["kind"] in ("tree", "fetch"):
@@ -1230,6 +1431,18 @@ def _diff_variants(mine, variants, ops=None):
 
 
 def diff(case, impl, model):
+    if case["kind"] == "vals":
+        if case["where"] != "node":
+            return None  # composites around the node have caches of their own: twin oracle only
+        descs = _vals_model_input(case)[1]
+        tag = impl.get("variant", "VC")
+        theirs = []
+        for l in model:
+            if l.startswith(tag + " "):
+                f = dict(x.split("=", 1) for x in l.split()[1:])
+                theirs.append(f"hit={f['hit']} c={descs[int(f['c'])] if f['c'] != 'ND' else 'ND'} "
+                              f"u={descs[int(f['u'])] if f['u'] != 'ND' else 'ND'}")
+        return _diff_variants(list(impl["obs"]), {tag: theirs})
     if case["kind"] == "fetch":
         mine = []
         for l in impl["obs"]:
@@ -1265,6 +1478,10 @@ def diff(case, impl, model):
             variants[tag] = out
         if any(l == "bad-op" for l in model):
             return {"index": 0, "impl": "<ops>", "model": "bad-op", "variant": "-"}
+        for theirs in variants.values():
+            for i, l in enumerate(mine):
+                if l == "key ?" and i < len(theirs) and theirs[i].startswith("key "):
+                    theirs[i] = "key ?"
         return _diff_variants(mine, variants)
     if case["kind"] != "node":
         return None
@@ -1339,6 +1556,17 @@ def _trigger(case, impl, k):
             if u == "future":
                 return "while-in-flight"
         return "other"
+    if case["kind"] == "vals":
+        # which earlier value does the stale answer belong to, and what does `==` say about the pair
+        cur = _mkval(rows[k]["op"])
+        for j in range(k - 1, -1, -1):
+            if rows[j]["c"] == rows[k]["c"] and rows[j]["called"]:
+                try:
+                    bool(cur == _mkval(rows[j]["op"]))
+                    return "inputs-equal-by-==-but-not-the-same-value"
+                except Exception:  # noqa: BLE001
+                    return "inputs-with-ambiguous-=="
+        return "other"
     if case["kind"] in ("tree", "fetch"):
         for j in range(k - 1, -1, -1):
             res = rows[j].get("resolved")
@@ -1354,6 +1582,11 @@ def _trigger(case, impl, k):
 
 
 def shrink_candidates(case):
+    if case.get("kind") == "vals":
+        seq = case["seq"]
+        for i in range(len(seq)):
+            yield {**case, "seq": seq[:i] + seq[i + 1:]}
+        return
     ops = case.get("ops", [])
     for i in range(len(ops)):
         yield {**case, "ops": ops[:i] + ops[i + 1:]}
